@@ -136,7 +136,9 @@ package taskfile
 //@ ghost var inclEnv *ast.Vars scratch
 //@ func (*Reader).include$1
 //@   site env.GetEnviron#1 ghost inclEnv := result
-//@   site (*Vars).Merge#1 requires arg0 == inclEnv && arg1 == vertex.Taskfile.Vars                              [C10]
+// (a Taskfile is read ONCE, by whichever parent reaches it first: what its includes are templated with must not
+// depend on the path it was reached by - the environment and the file's own variables, nothing else)
+//@   site (*Vars).Merge#0 requires arg0 == inclEnv && arg1 == vertex.Taskfile.Vars                              [C10,C09]
 
 // ---- C20: looking for the remote file honours the caller's deadline (--timeout): every request is made with
 // the context that was passed in, so a server that accepts the connection and then stalls cannot hold Task up
